@@ -192,13 +192,13 @@ CHECKS["C11"] = {
     "rule": "(tables, exhaustive) psi := forward table[512] must satisfy psi^1024 = -1; all 1024 forward entries == psi^bitrev10(i), "
             "all 1024 inverse entries == psi^-bitrev10(i), all 11 stored n^-1 constants (entry 0 and unused entries included, through "
             "the accessor hook). (products) for every n in {1,2,4,...,1024}: all n unit impulses times a random polynomial and times "
-            "a negated impulse, all-(q-1), alternating, zero, and seeded random pairs: intt(ntt(a)) == a, (cross-size) one thread walks through all sizes in ascending, descending and shuffled order with the SAME low-degree coefficients embedded in every length (constants, zero, short polynomials), so that state kept between transforms is exposed; "
+            "a negated impulse, all-(q-1), alternating, zero, and seeded random pairs: intt(ntt(a)) == a, (cross-size) one thread walks through all sizes in ascending, descending and shuffled order with the SAME low-degree coefficients embedded in every length (constants, zero, short polynomials), so that state kept between transforms is exposed; (inverse-structured) the inverse transform applied directly to structured transform-domain vectors (blocks of values near q-1 next to blocks near 0 at every alignment, periodic and extreme vectors), checked by linearity against its own impulse responses and by the round trip; products and inverse-structured also run on the overflow-checked build; "
             "intt(ntt(a) .* ntt(b)) == schoolbook negacyclic product mod q, outputs canonical. distinct_nontrivial = table entries + "
             "(n, impulse index) cells + sizes.",
     "assumptions": ["reference schoolbook product and modular exponentiation in the harness"],
     "exhaustive": True,
     "exhaustive_scope": "the twiddle tables and n^-1 constants are checked completely; the transforms are linear, so the n impulses per size determine them given exact field arithmetic (C12); random pairs are samples",
-    "legs": [{"name": "tables"}, {"name": "products"}, {"name": "cross-size"}],
+    "legs": [{"name": "tables"}, {"name": "products", "profiles": BOTH}, {"name": "cross-size"}, {"name": "inverse-structured", "profiles": BOTH}],
     "technique": "exhaustive table monitor + differential monitor against a schoolbook reference over all impulses and random pairs for every size",
     "level_text": "Tables complete; transforms checked on a basis of the input space plus random samples for all 11 sizes.",
     "level_note": "relies on C12 for the exactness of the field operations used inside the butterflies",
@@ -208,7 +208,7 @@ CHECKS["C13"] = {
     "title": "floating-point FFT accuracy, split/merge inverse",
     "rule": "(table, exhaustive) every entry of the complex twiddle table within 2^-50 of exp(i*pi*bitrev10(k)/1024). (accuracy) for "
             "every n in {2,...,1024}: all n impulses of magnitude 2^14 times a random b, constant +-2^14 x 2^10, alternating signs, and "
-            "seeded random integer vectors with |a_i| <= 2^14, |b_i| <= 2^10 (and smaller ranges) and random non-integer reals with 20 fractional bits in the same range (exact product still computable in i128): ||ifft(fft(a)) - a||_inf <= 2^-30 ||a||, "
+            "seeded random integer vectors with |a_i| <= 2^14, |b_i| <= 2^10 (and smaller ranges) and random non-integer reals with 20 fractional bits in the same range (exact product still computable in i128), and full-magnitude operands steered (by +-1 nudges of b) so that the exact product has one tiny non-zero coefficient next to coefficients of size 2^29: ||ifft(fft(a)) - a||_inf <= 2^-30 ||a||, "
             "||ifft(fft(a).fft(b)) - a*b||_inf <= 2^-30 ||a|| ||b|| where a*b is the exact integer negacyclic product (i128), "
             "merge(split(F)) == F and split(fft(a)) == (fft(a_even), fft(a_odd)) to 2^-30 relative. The worst observed relative "
             "errors are reported (about 1e-15 on the unchanged tree, i.e. the tolerance is 2^20 times the observed error). "
@@ -227,8 +227,8 @@ CHECKS["C14"] = {
             "136-byte rate, 4 KiB, 64 KiB, 1 MiB (16 MiB thorough), and a search leg over counter strings that keeps going until "
             "the reference's 16-bit chunk stream has contained the exact boundary values 61444 (largest accepted), 61445 (smallest "
             "rejected), 65535, 12288, 12289 at least 100 times each. Also: every coefficient in [0,q), two calls agree, the 512 "
-            "point is the prefix of the 1024 point. Second leg (extremes): 6e6 (1.2e8 thorough) candidate inputs are scanned with the "
-            "REFERENCE only and the 3000 (60000) whose stream rejects the most chunks early are hashed by the real code - inputs "
+            "point is the prefix of the 1024 point. Second leg (extremes): 1.2e7 (6e8 thorough) candidate inputs are scanned with the "
+            "REFERENCE SHAKE only and the 4000 (80000) whose chunk stream rejects the most chunks early or has the longest runs of consecutive rejected chunks are hashed by the real code - inputs "
             "that stress buffering / refill logic, which typical inputs never do. distinct_nontrivial = lengths + long inputs + inputs whose stream contained a "
             "boundary chunk.",
     "assumptions": ["own SHAKE-256 (self-tested against OpenSSL-generated known answers)"],
@@ -243,7 +243,7 @@ CHECKS["C08"] = {
     "rule": "Offline history checker over recorded salts (bytes 1..41 of to_bytes()) of the REAL thread_rng path (no RNG override "
             "installed). Histories: 16 threads behind a barrier signing the same message under one key, distinct messages, and a "
             "second key, for both variants; 1600 (20000 thorough) short-lived threads signing once or twice each (thread-per-request "
-            "pattern); a few hundred signatures forced through the compression-retry path by the failpoint (real randomness); K child processes started together signing the same (message, key); the same message twice back to back; and "
+            "pattern); a few hundred signatures forced through the compression-retry path by the failpoint (real randomness); sequences of equal-length messages from 0 B to 200 kB signed back to back in one thread (same/different content, keys, variants); K child processes started together signing the same (message, key); the same message twice back to back; and "
             "a history produced by a build of falcon-rust WITHOUT the verif-hooks feature through the public API only. Checks per "
             "history and on the union: no salt occurs twice (hash map, witness = the two calls), every one of the 40 byte positions "
             "takes >= 32 distinct values, each of the 320 bits is balanced within 6 sigma, no two calls return byte-identical "
